@@ -921,16 +921,32 @@ def evaluable(t):
     return False
 
 
+def wrap_atoms(t):
+    """every identifier operand in a pair of redundant parentheses of its own"""
+    if t[0] == "V":
+        return ("P", t)
+    l = list(t)
+    for c in children(t):
+        l[c] = wrap_atoms(t[c])
+    t = tuple(l)
+    if t[0] in ARGS_AT:
+        t = with_args(t, [wrap_atoms(a) for a in args_of(t)])
+    return t
+
+
 def property_oracle(impl_dir, seed, t):
     """The property's own reading on one source tree: println of the text as given (with its redundant
     parentheses), of the minimal text and of the fully parenthesised text must print the same value
     (operand values by brute force in the model), and the real parser must build the same AST for the three
     texts.  -> (violated?, description, payload)"""
     t0 = strip(t)
-    mt = model_tree([t, t0, model_full([t0])[0]])
-    forms = [("given", mt[0]["text"]), ("minimal", mt[1]["text"]), ("full", mt[2]["text"])]
+    mt = model_tree([t, t0, model_full([t0])[0], wrap_atoms(t0)])
+    forms = [("given", mt[0]["text"]), ("minimal", mt[1]["text"]), ("full", mt[2]["text"]), ("identifiers parenthesised", mt[3]["text"])]
     if forms[0][1] == forms[1][1]:
         forms = forms[1:]
+    if forms[-1][1] in [f[1] for f in forms[:-1]] or not mt[3]["safe"]:
+        forms = forms[:-1]
+        mt = mt[:3]
     texts = [x[1] for x in forms]
     d = impl_dumps(impl_dir, texts, [False] * len(texts))
     payload = {"texts": dict(forms), "impl_ast": dict(zip([x[0] for x in forms], d))}
